@@ -12,6 +12,11 @@
     component "/".
   * `info['pieces']` carries a ghost stamp: the content path, the layout and the piece length it
     was computed for, and the number of digests stored.
+  * The four filter lists (`exclude_globs`, `include_globs`, `exclude_regexs`, `include_regexs`)
+    are `utils.MonitoredList`s with the callback `_filters_changed`: `namespace ML` models the
+    list operations (slice and index assignment as repaired by e62ce6d: coerce every new item
+    first, assign on a copy, clear, re-add item by item through `_filter_func`, then the callback),
+    `applyL` runs one of them on one of the lists.
 -/
 import Torf.Base.Chunks
 namespace Torf.Attrs
@@ -33,6 +38,8 @@ deriving DecidableEq, Repr, Inhabited
 
 inductive Err
   | pieceSize | path | commonPath | read | runtime
+  | regex   -- `re.error`: `re.compile` rejected an item given to a regex filter list
+  | index   -- `IndexError`: `lst[i] = v` with `i` out of range
   | internal (what : String)
 deriving DecidableEq, Repr, Inhabited
 
@@ -45,6 +52,19 @@ deriving DecidableEq, Repr, Inhabited
 inductive Glob
   | suffix (s : String)
   | infix (s : String)
+deriving DecidableEq, Repr, Inhabited
+
+/-- the shapes of regular expression the correspondence uses (what `re.compile` returns for the
+    source text given in the comment; compiled patterns compare equal iff their sources do), and
+    `invalid`: a source text that `re.compile` rejects with `re.error` — only ever an *argument*
+    of an operation, never stored (`FiltersOk`) -/
+inductive Rx
+  | lit (s : String)           -- `re.escape(s)`
+  | suffix (s : String)        -- `re.escape(s) + '$'`
+  | suffixCI (s : String)      -- `'(?i)' + re.escape(s) + '$'`
+  | pre (s : String)           -- `'^' + re.escape(s)`
+  | suffixClass (cs : String)  -- `'[' + cs + ']$'`
+  | invalid (src : String)
 deriving DecidableEq, Repr, Inhabited
 
 /-- ghost stamp of `info['pieces']` -/
@@ -65,6 +85,8 @@ structure St where
   pmax : Nat
   exGlobs : List Glob := []
   inGlobs : List Glob := []
+  exRegexs : List Rx := []
+  inRegexs : List Rx := []
   comment : Option String := none
 deriving DecidableEq, Repr, Inhabited
 
@@ -239,9 +261,30 @@ def Glob.matches (g : Glob) (str : String) : Bool :=
   | .suffix s => (lower s).isSuffixOf (lower str)
   | .infix s => hasInfix (lower str) (lower s)
 
-/-- `is_excluded`: include patterns take precedence over exclude patterns -/
+/-- `re.compile` accepts the source text -/
+def Rx.valid : Rx → Bool
+  | .invalid _ => false
+  | _ => true
+
+/-- `pattern.search(str)` (strings without newline, so `$` is the end of the string) -/
+def Rx.search (r : Rx) (str : String) : Bool :=
+  match r with
+  | .lit s => hasInfix str.toList s.toList
+  | .suffix s => s.toList.isSuffixOf str.toList
+  | .suffixCI s => (lower s).isSuffixOf (lower str)
+  | .pre s => s.toList.isPrefixOf str.toList
+  | .suffixClass cs => match str.toList.getLast? with
+                       | some c => cs.toList.contains c
+                       | none => false
+  | .invalid _ => false
+
+/-- `is_excluded`: include patterns (regular expressions, then wildcards) take precedence over
+    exclude patterns (regular expressions, then wildcards) -/
 def excluded (s : St) (str : String) : Bool :=
-  if s.inGlobs.any (·.matches str) then false else s.exGlobs.any (·.matches str)
+  if s.inRegexs.any (·.search str) then false
+  else if s.inGlobs.any (·.matches str) then false
+  else if s.exRegexs.any (·.search str) then true
+  else s.exGlobs.any (·.matches str)
 
 def Env.isFile (e : Env) (p : Path) : Bool := e.files.any (·.1 == p)
 def Env.under (e : Env) (p : Path) : List (Path × Nat) :=
@@ -269,13 +312,16 @@ def place (oldName : Option String) (kept : List (Path × Nat)) (bp : Path) :
 
 /-- `utils.filter_files(files, getter=relpath_with_parent, hidden=False, empty=False, …)`.
     (The `empty=False` test looks for the *relative* path in the current directory; the model
-    assumes it is not found there — see notes.) -/
+    assumes it is not found there — see notes.)  The patterns see
+    `pathlib.Path(basepath.parent, filepath)` where `basepath` is the common path of the relative
+    paths *inside* `filter_files` (for a directory with one file that is the file itself, so the
+    string is `B/B/x`). -/
 def filterFiles (s : St) (files : List (Path × Nat)) (bp : Path) : List (Path × Nat) :=
   let withParent := fun (p : Path) => p.drop (bp.length - 1)
   let common := commonPrefix (files.map fun f => withParent f.1)
   files.filter fun f =>
     let r := withParent f.1
-    !isHidden (r.drop common.length) && !excluded s ("/".intercalate r)
+    !isHidden (r.drop common.length) && !excluded s ("/".intercalate (common.dropLast ++ r))
 
 /-- `Torrent._set_files(files, basepath)` -/
 def setFilesCore (env : Env) (s : St) (files : List (Path × Nat)) (basepath : Option Path) :
@@ -384,6 +430,105 @@ def isReady (env : Env) (s : St) : Bool :=
       | none => true
       | some p => env.isDir p && fs.all fun f => env.sizeOf? (p ++ f.path) == some f.size))
 
+/-! ### `utils.MonitoredList` as used for the four filter lists -/
+
+namespace ML
+variable {α : Type} [DecidableEq α]
+
+/-- the loop at the end of `MonitoredList.__setitem__` (fix e62ce6d): the list was cleared, every
+    item of the assigned copy is added again unless `_filter_func` finds it in the list built so
+    far — the first occurrence wins, as with `insert()` -/
+def readd (items : List α) : List α :=
+  items.foldl (fun acc x => if acc.contains x then acc else acc ++ [x]) []
+
+/-- `items[a:b] = vs` on the plain Python list copy, for `0 ≤ a` and `0 ≤ b` or an open end
+    (`b = none`, as in `lst[:] = vs` / `lst[a:] = vs`) -/
+def spliced (l : List α) (a : Nat) (b : Option Nat) (vs : List α) : List α :=
+  l.take a ++ vs ++ l.drop (max a (b.getD l.length))
+
+/-- the position `items[i]` refers to: negative indexes count from the end; `none` = IndexError -/
+def pyIndex (len : Nat) (i : Int) : Option Nat :=
+  let j := if i < 0 then i + len else i
+  if 0 ≤ j ∧ j < len then some j.toNat else none
+
+end ML
+
+/-- the operations on one filter list (items of type `α`: wildcard patterns or regular
+    expressions), through the attribute or through the list object obtained from it earlier —
+    the lists are persistent objects, so both routes are the same operation -/
+inductive LOp (α : Type)
+  | setSlice (a : Nat) (b : Option Nat) (vs : List α)  -- `lst[a:b] = vs`; `torrent.x = vs` is `lst[:] = vs`
+  | setIndex (i : Int) (v : α)                          -- `lst[i] = v`
+  | append (v : α)
+  | extend (vs : List α)                                -- also `lst += vs` on a local name
+  | del (i : Nat)                                       -- `del lst[i % len(lst)]` (nothing if empty)
+  | clear
+  | assignSelf                                          -- `torrent.x = torrent.x`, `lst[:] = lst`
+  | iaddAttr (vs : List α)                              -- `torrent.x += vs`: extend, then the setter with the list itself
+deriving Repr, Inhabited
+
+section
+variable {α : Type} [DecidableEq α]
+variable (env : Env) (valid : α → Bool) (get : St → List α) (put : St → List α → St)
+
+/-- `MonitoredList.__setitem__(slice, vs)`: every new item is coerced first (`re.compile` may raise
+    `re.error`: nothing has changed yet), the assignment is made on a copy, the list is cleared and
+    refilled item by item through `_filter_func` (`ML.readd`), then the callback runs — and may
+    itself raise after the list was changed -/
+def setSliceL (s : St) (a : Nat) (b : Option Nat) (vs : List α) : St × Res :=
+  if !vs.all valid then (s, .err .regex)
+  else filtersChanged env (put s (ML.readd (ML.spliced (get s) a b vs)))
+
+/-- `MonitoredList.__setitem__(int, v)`: coerce, then `items[i] = v` on the copy (IndexError:
+    nothing has changed), re-add, callback -/
+def setIndexL (s : St) (i : Int) (v : α) : St × Res :=
+  if !valid v then (s, .err .regex)
+  else
+    match ML.pyIndex (get s).length i with
+    | none => (s, .err .index)
+    | some j => filtersChanged env (put s (ML.readd ((get s).set j v)))
+
+/-- `append(v)` = `insert(len, v)`: coerce (may raise), skip an item that is already present, the
+    callback runs in both cases -/
+def appendL (s : St) (v : α) : St × Res :=
+  if !valid v then (s, .err .regex)
+  else
+    let l := get s
+    filtersChanged env (put s (if l.contains v then l else l ++ [v]))
+
+/-- `extend(vs)` (`MutableSequence.extend`): one `append` — with its callback — per item; the
+    first exception (a rejected item or a raising callback) ends it with the earlier items kept -/
+def extendL (s : St) : List α → St × Res
+  | [] => (s, .ok)
+  | v :: vs =>
+    match appendL env valid get put s v with
+    | (s', .ok) => extendL s' vs
+    | r => r
+
+/-- one operation on one filter list -/
+def applyL (s : St) : LOp α → St × Res
+  | .setSlice a b vs => setSliceL env valid get put s a b vs
+  | .setIndex i v => setIndexL env valid get put s i v
+  | .append v => appendL env valid get put s v
+  | .extend vs => extendL env valid get put s vs
+  | .del i =>
+    let l := get s
+    if l.isEmpty then (s, .ok) else filtersChanged env (put s (l.eraseIdx (i % l.length)))
+  | .clear => filtersChanged env (put s [])
+  | .assignSelf => setSliceL env valid get put s 0 none (get s)
+  | .iaddAttr vs =>
+    match extendL env valid get put s vs with
+    | (s', .ok) => setSliceL env valid get put s' 0 none (get s')
+    | r => r
+end
+
+def getGlobs (s : St) (inc : Bool) : List Glob := if inc then s.inGlobs else s.exGlobs
+def putGlobs (s : St) (inc : Bool) (gs : List Glob) : St :=
+  if inc then { s with inGlobs := gs } else { s with exGlobs := gs }
+def getRxs (s : St) (inc : Bool) : List Rx := if inc then s.inRegexs else s.exRegexs
+def putRxs (s : St) (inc : Bool) (rs : List Rx) : St :=
+  if inc then { s with inRegexs := rs } else { s with exRegexs := rs }
+
 /-! ### operations -/
 
 inductive Op
@@ -396,10 +541,8 @@ inductive Op
   | fpDel (i : Nat)
   | fpAppend (p : Path)
   | fpClear
-  | globSet (inc : Bool) (gs : List Glob)
-  | globAppend (inc : Bool) (g : Glob)
-  | globDel (inc : Bool) (i : Nat)
-  | globClear (inc : Bool)
+  | glob (inc : Bool) (o : LOp Glob)   -- `include_globs` / `exclude_globs` (`type=str`: every item is accepted)
+  | rx (inc : Bool) (o : LOp Rx)       -- `include_regexs` / `exclude_regexs` (`type=re.compile`)
   | setName (n : Option String)
   | setPieceSize (v : Option Int)
   | setMin (v : Option Int)
@@ -407,10 +550,6 @@ inductive Op
   | generate
   | setComment (c : Option String)
 deriving Repr, Inhabited
-
-def getGlobs (s : St) (inc : Bool) : List Glob := if inc then s.inGlobs else s.exGlobs
-def putGlobs (s : St) (inc : Bool) (gs : List Glob) : St :=
-  if inc then { s with inGlobs := gs } else { s with exGlobs := gs }
 
 /-- one attribute operation: new state and outcome -/
 def apply (env : Env) (s : St) : Op → St × Res
@@ -429,14 +568,8 @@ def apply (env : Env) (s : St) : Op → St × Res
     if l.isEmpty then (s, .ok) else setFilepathsAttr env s (l.eraseIdx (i % l.length))
   | .fpAppend p => setFilepathsAttr env s (filepathsOf s ++ [p])
   | .fpClear => setFilepathsAttr env s []
-  | .globSet inc gs => filtersChanged env (putGlobs s inc gs)
-  | .globAppend inc g =>
-    let l := getGlobs s inc
-    filtersChanged env (putGlobs s inc (if l.contains g then l else l ++ [g]))
-  | .globDel inc i =>
-    let l := getGlobs s inc
-    if l.isEmpty then (s, .ok) else filtersChanged env (putGlobs s inc (l.eraseIdx (i % l.length)))
-  | .globClear inc => filtersChanged env (putGlobs s inc [])
+  | .glob inc o => applyL env (fun _ => true) (getGlobs · inc) (putGlobs · inc) s o
+  | .rx inc o => applyL env Rx.valid (getRxs · inc) (putRxs · inc) s o
   | .setName n => (setName s n, .ok)
   | .setPieceSize v => setPieceSize s v
   | .setMin v => setMin s v
